@@ -1,15 +1,16 @@
 ---------------------------- MODULE Address_Judge ----------------------------
 (* C01 / C02 cases:  [t |-> "rt", kind, fmt, raw, text, reparsed, wire, unwire]   [t |-> "text", out, fixed]
-                     [t |-> "flt", pat, raw, res] *)
+                     [t |-> "flt", pat, raw, res]   [t |-> "glob", p, s, res] *)
 EXTENDS Address, Json, IOUtils, TLC
 Cases == ndJsonDeserialize(IOEnv.TRACE_FILE)
-Ok(c) == CASE c.t = "rt" -> RoundTripOk(c) [] c.t = "text" -> TextOk(c) [] c.t = "flt" -> FilterOk(c) [] OTHER -> FALSE
+Ok(c) == CASE c.t = "rt" -> RoundTripOk(c) [] c.t = "text" -> TextOk(c) [] c.t = "flt" -> FilterOk(c) [] c.t = "glob" -> GlobOk(c) [] OTHER -> FALSE
 Bad == {i \in 1..Len(Cases) : ~Ok(Cases[i])}
 \* the reference reading on examples of the documentation: "1/2/3" = 0x0A03, "1/515" the same, "31/7/255" = 65535, "1.1.1" = 0x1101
 ASSUME ReadGA(<<49, 47, 50, 47, 51>>).raw = 2563 /\ ReadGA(<<49, 47, 53, 49, 53>>).raw = 2563 /\ ReadGA(<<51, 49, 47, 55, 47, 50, 53, 53>>).raw = 65535
 ASSUME ReadIA(<<49, 46, 49, 46, 49>>) = 4353 /\ ReadGA(<<51, 50, 47, 48, 47, 48>>).raw = None
 \* filter lemmas: '*' = '0-' ; reversed ranges are normalised
 ASSUME \A raw \in {0, 255, 256, 2047, 2048, 65535} : Match(<<<< <<-1, -1>> >>>>, raw) /\ (Match(<<<< <<5, 2>> >>>>, raw) = Match(<<<< <<2, 5>> >>>>, raw))
+ASSUME Glob(<<105, 45, 42>>, <<105, 45, 97>>) /\ ~Glob(<<105, 45, 97>>, <<120, 105, 45, 97>>) /\ Glob(<<105, 45, 63, 42, 98>>, <<105, 45, 97, 98>>) /\ ~Glob(<<105, 45, 63>>, <<105, 45>>) /\ Glob(<<42>>, <<>>)
 ASSUME PrintT(<<"RESULT", Len(Cases), Bad>>)
 VARIABLE x
 Init == x = 0
